@@ -268,6 +268,27 @@ pub fn sig_matches(known: &str, actual: &str) -> bool {
 }
 
 thread_local! {
+    /// location and message of the last panic on this thread (set by the panic hook)
+    pub static LAST_PANIC: std::cell::RefCell<Option<(String, String)>> = const { std::cell::RefCell::new(None) };
+}
+
+/// Run `f`; a panic raised inside the library under test (location under /repo/) becomes
+/// `Err("panic: ...")`, any other panic (harness, dependencies) continues to unwind.
+pub fn catch_subject_panic<T>(f: impl FnOnce() -> T) -> Result<T, String> {
+    LAST_PANIC.with(|c| *c.borrow_mut() = None);
+    match std::panic::catch_unwind(std::panic::AssertUnwindSafe(f)) {
+        Ok(v) => Ok(v),
+        Err(p) => {
+            let last = LAST_PANIC.with(|c| c.borrow().clone());
+            match last {
+                Some((loc, msg)) if loc.starts_with("/repo/") => Err(format!("panic: the library panicked at {loc}: {}", msg.lines().last().unwrap_or(""))),
+                _ => std::panic::resume_unwind(p),
+            }
+        }
+    }
+}
+
+thread_local! {
     static RT: tokio::runtime::Runtime = tokio::runtime::Builder::new_current_thread()
         .enable_all()
         .build()
@@ -317,7 +338,9 @@ pub enum Confirmed {
 
 /// Re-execute a violation: `run` returns the violation message of one re-execution (None = no
 /// violation). Two clean reproductions suffice; otherwise up to six attempts are made.
-pub fn confirm_violation(mut run: impl FnMut() -> Option<String>, class: &str) -> Confirmed {
+pub fn confirm_violation(mut run0: impl FnMut() -> Option<String>, class: &str) -> Confirmed {
+    // a panic of the library during the re-execution is the violation's message again
+    let mut run = || catch_subject_panic(&mut run0).unwrap_or_else(Some);
     let same = |m: &Option<String>| m.as_ref().is_some_and(|m| m.split(':').next().unwrap_or("") == class);
     let (a, b) = (run(), run());
     if same(&a) && same(&b) {
